@@ -143,21 +143,31 @@ def run_sched(ctx, pid, profiles, n_quick, n_thorough, extra=None, monitor_profi
     else:
         corpus = corpus_for(pid)
         scheds = gen.generate(seed, n, profiles)
+    # schedules the phase-contiguous model cannot express (a caller keeping a reference guard while another call blocks
+    # on that shard) run on the implementation only and are judged by the monitors
+    impl_only = [s for s in corpus if s.get("impl_only")]
+    corpus = [s for s in corpus if not s.get("impl_only")]
     allsched = corpus + scheds
     divs, impl, model = corr.correspond(binary, allsched, pid)
+    if impl_only:
+        impl.update(corr.run_impl(binary, impl_only, pid + "_implonly"))
+        allsched = allsched + impl_only
     divergences = []
     for d in divs:
         divergences.append(dict(kind="schedule", component=d["component"], field=d["field"], schedule=dict(name=d["schedule"]["name"], cfg=d["schedule"]["cfg"], events=d["schedule"]["events"][: d["event_index"] + 1]),
                                 event_index=d["event_index"], event=d["event"], model=d["model"], impl=d["impl"]))
-    mon_scheds = allsched if monitor_profiles is None else corpus + [s for s in scheds if s.get("profile") in monitor_profiles]
+    mon_scheds = (corpus + scheds) if monitor_profiles is None else corpus + [s for s in scheds if s.get("profile") in monitor_profiles]
     failures = monitors.run_monitor(pid, mon_scheds, impl) if pid in monitors.MONITORS else []
+    if pid in ("C02", "C04", "C08"):
+        for s in impl_only:
+            failures += monitors.mon_guard(monitors.Trace(s, impl[s["name"]]))
     searched = 0
     if (divergences or not ctx["proof_ok"]) and not [f for f in failures if f["signature"] not in ctx.get("known_sigs", set())] and not ctx.get("replay"):
         # directed search on the implementation alone: the diverging schedules' neighbourhood plus a fresh larger sample
-        more = gen.generate(seed + 7919, max(400, 2 * n), profiles)
+        more = neighbourhood(divs) + gen.generate(seed + 7919, max(400, 2 * n), profiles)
         impl2 = corr.run_impl(binary, more, pid + "_search")
         searched = len(more)
-        sel = more if monitor_profiles is None else [s for s in more if s.get("profile") in monitor_profiles]
+        sel = more if monitor_profiles is None else [s for s in more if s.get("profile") in monitor_profiles or s["name"].startswith("nb")]
         if pid in monitors.MONITORS:
             failures += monitors.run_monitor(pid, sel, impl2)
     res = dict(divergences=divergences, failures=failures,
@@ -174,24 +184,58 @@ def run_sched(ctx, pid, profiles, n_quick, n_thorough, extra=None, monitor_profi
     return res
 
 
+def neighbourhood(divs, limit=6):
+    """Continuations of the diverging schedules that let a latent difference surface: drain the queue, let time pass over
+    every shard with a sweep per second, change / remove the TTL of the keys involved, read everything, quiesce."""
+    out = []
+    for n, d in enumerate(divs[:limit]):
+        s = d["schedule"]
+        cfg = corr.DEFAULT_CFG.copy()
+        cfg.update(s["cfg"])
+        prefix = [e for e in s["events"][: d["event_index"] + 1]]
+        keys = sorted({int(e.split()[3]) for e in s["events"] if e.startswith("call") and len(e.split()) > 3 and e.split()[3].isdigit()})[:8]
+        # the key of the diverging event (or of the call a diverging worker step executed) goes first
+        involved = []
+        for e in reversed(prefix[-4:]):
+            pe = e.split()
+            if pe[0] == "call" and len(pe) > 3 and pe[3].isdigit():
+                involved.append(int(pe[3]))
+        keys = list(dict.fromkeys(involved + keys))
+        reads = ["call 0 get %d" % k for k in keys] + ["call 0 stats", "call 0 weight_used"]
+        drainq = ["run 0", "run 1", "run 2"] + ["worker"] * 10
+        sweeps = []
+        for _ in range(2 * cfg["shards"] + 2):
+            sweeps += ["advance 1000000000", "sweep"]
+        far = ["advance 120000000000"] + sweeps
+        ups_rm = ["call 0 upsert %d - - - 1" % k for k in keys[:3]] + ["worker"] * 4
+        ups_long = ["call 0 upsert %d - - 300000000000 0" % k for k in keys[:3]] + ["worker"] * 4
+        dels = ["call 0 delete %d" % k for k in keys] + ["worker"] * (len(keys) + 2)
+        variants = [drainq + reads, drainq + sweeps + reads, drainq + far + reads, drainq + ups_rm + far + reads,
+                    drainq + ups_long + far + reads, drainq + dels + reads + sweeps + reads,
+                    drainq + ["call 0 put_w %d %d 1" % (k, 900000 + k) for k in keys] + ["worker"] * len(keys) + reads + far + reads]
+        for m, v in enumerate(variants):
+            out.append(dict(name="nb%d_%d" % (n, m), cfg=s["cfg"], events=prefix + v, profile=s.get("profile", "neighbourhood")))
+    return out
+
+
 def mk(pid, profiles, nq, nt, **kw):
     return lambda ctx: run_sched(ctx, pid, profiles, nq, nt, **kw)
 
 
 PROPS.update({
-    "C01": dict(module="C01", run=mk("C01", ["general", "default_weights", "ttl", "queue1", "evict"], 250, 4000),
+    "C01": dict(module="C01", run=mk("C01", ["general", "default_weights", "ttl", "queue1", "evict", "evict2"], 260, 4000),
                 components=["weights", "admission", "api", "queue_worker", "store", "ticker"],
                 assumptions=["schedule class proved: all phase-contiguous schedules (one call / command / sweep / batch at a time; calls may be unawaited, callers may be parked); finer interleavings of the worker's check-then-add with sweeper subtractions: ledger model (Ledger.v) once built",
                              "overflow-checking (debug) profile"]),
-    "C03": dict(module="C03", run=mk("C03", ["roomy", "awaited", "ttl"], 250, 4000), components=["store", "weights", "admission", "ticker", "api", "queue_worker", "time"],
+    "C03": dict(module="C03", run=mk("C03", ["roomy", "awaited", "ttl", "ttlchain", "general"], 250, 4000), components=["store", "weights", "admission", "ticker", "api", "queue_worker", "time"],
                 assumptions=["partial: phase-contiguous schedules; 'no memory pressure' is stated per executed put (it fits the free space)"]),
     "C04": dict(module="C04", run=mk("C04", ["general", "ttl", "awaited", "queue1"], 250, 4000), components=["store", "api", "queue_worker", "weights", "ticker"]),
-    "C05": dict(module="C05", run=mk("C05", ["general", "queue1", "ttl", "evict"], 250, 4000), components=["weights", "store", "api", "queue_worker", "ticker", "admission"]),
-    "C06": dict(module="C06", run=mk("C06", ["evict", "general"], 250, 4000), components=["admission", "weights", "sketch", "tinylfu", "store"]),
+    "C05": dict(module="C05", run=mk("C05", ["general", "queue1", "ttl", "evict", "evict2"], 250, 4000), components=["weights", "store", "api", "queue_worker", "ticker", "admission"]),
+    "C06": dict(module="C06", run=mk("C06", ["evict2", "evict", "general"], 270, 4000), components=["admission", "weights", "sketch", "tinylfu", "store"]),
     "C07": dict(module="C07", run=mk("C07", ["general", "ttl", "awaited"], 250, 4000), components=["store", "api", "time", "queue_worker"]),
-    "C08": dict(module="C08", run=mk("C08", ["general", "ttl", "roomy"], 250, 4000), components=["store", "api", "ticker", "weights", "time", "queue_worker"]),
-    "C09": dict(module="C09", run=mk("C09", ["ttl", "general"], 250, 4000), components=["store", "time", "api", "ticker"]),
-    "C10": dict(module="C10", run=mk("C10", ["ttl", "general"], 250, 4000), components=["ticker", "weights", "store", "api", "time"]),
+    "C08": dict(module="C08", run=mk("C08", ["general", "ttl", "roomy", "ttlchain"], 250, 4000), components=["store", "api", "ticker", "weights", "time", "queue_worker"]),
+    "C09": dict(module="C09", run=mk("C09", ["ttl", "general", "ttlchain"], 250, 4000), components=["store", "time", "api", "ticker"]),
+    "C10": dict(module="C10", run=mk("C10", ["ttl", "general", "ttlchain"], 250, 4000), components=["ticker", "weights", "store", "api", "time"]),
 })
 
 
